@@ -113,6 +113,9 @@ type pgError struct {
 	Table      string
 	Column     string
 	Constraint string
+	// fake marks errors that exist only because pgfake does not implement
+	// something (as opposed to errors PostgreSQL would raise too).
+	fake bool
 }
 
 func (e *pgError) Error() string { return fmt.Sprintf("%s (SQLSTATE %s)", e.Message, e.Code) }
@@ -395,7 +398,7 @@ func textIn(s string, t Type) (Datum, error) {
 	if et, ok := elemOf[t]; ok {
 		return arrayIn(s, et)
 	}
-	return nil, errf(codeUnsupported, "pgfake: text input for type %s not implemented", t)
+	return nil, unsupported("text input for type %s not implemented", t)
 }
 
 func byteaIn(s string) (Datum, error) {
@@ -452,11 +455,11 @@ func timestampIn(s string) (Datum, error) {
 	}
 	switch strings.ToLower(s) {
 	case "infinity", "-infinity", "now", "today", "tomorrow", "yesterday", "epoch":
-		return nil, errf(codeUnsupported, "pgfake: special timestamp input %q not implemented", s)
+		return nil, unsupported("special timestamp input %q not implemented", s)
 	}
 	// Time zone suffixes and other exotic formats are valid in PostgreSQL
 	// but not implemented here.
-	return nil, errf(codeUnsupported, "pgfake: timestamp input syntax %q not implemented", s)
+	return nil, unsupported("timestamp input syntax %q not implemented", s)
 }
 
 // roundMicro rounds to microseconds like PostgreSQL's timestamp input.
@@ -471,7 +474,7 @@ func arrayIn(s string, et Type) (Datum, error) {
 	s = strings.TrimSpace(s)
 	if len(s) < 2 || s[0] != '{' || s[len(s)-1] != '}' {
 		if strings.HasPrefix(s, "[") {
-			return nil, errf(codeUnsupported, "pgfake: array literals with explicit bounds not implemented")
+			return nil, unsupported("array literals with explicit bounds not implemented")
 		}
 		return bad()
 	}
@@ -492,7 +495,7 @@ func arrayIn(s string, et Type) (Datum, error) {
 		quoted := false
 		switch body[i] {
 		case '{':
-			return nil, errf(codeUnsupported, "pgfake: multi-dimensional arrays not implemented")
+			return nil, unsupported("multi-dimensional arrays not implemented")
 		case '"':
 			quoted = true
 			i++
@@ -673,13 +676,13 @@ func binaryIn(b []byte, t Type) (Datum, error) {
 		}
 		us := int64(binary.BigEndian.Uint64(b))
 		if us == math.MaxInt64 || us == math.MinInt64 {
-			return nil, errf(codeUnsupported, "pgfake: infinite timestamps not implemented")
+			return nil, unsupported("infinite timestamps not implemented")
 		}
 		return pgEpoch.Add(time.Duration(us/1e6)*time.Second + time.Duration(us%1e6)*time.Microsecond), nil
 	}
 	et, ok := elemOf[t]
 	if !ok {
-		return nil, errf(codeUnsupported, "pgfake: binary input for type %s not implemented", t)
+		return nil, unsupported("binary input for type %s not implemented", t)
 	}
 	if len(b) < 12 {
 		return bad()
@@ -693,7 +696,7 @@ func binaryIn(b []byte, t Type) (Datum, error) {
 		return array{}, nil
 	}
 	if ndim != 1 {
-		return nil, errf(codeUnsupported, "pgfake: multi-dimensional arrays not implemented")
+		return nil, unsupported("multi-dimensional arrays not implemented")
 	}
 	if len(b) < 20 {
 		return bad()
@@ -701,7 +704,7 @@ func binaryIn(b []byte, t Type) (Datum, error) {
 	n := int(binary.BigEndian.Uint32(b[12:]))
 	lb := int32(binary.BigEndian.Uint32(b[16:]))
 	if lb != 1 {
-		return nil, errf(codeUnsupported, "pgfake: arrays with lower bound other than 1 not implemented")
+		return nil, unsupported("arrays with lower bound other than 1 not implemented")
 	}
 	p := b[20:]
 	out := make(array, 0, n)
@@ -731,11 +734,11 @@ func binaryIn(b []byte, t Type) (Datum, error) {
 // ---------------------------------------------------------------------------
 // conversion to plain Go values for the inspection API
 
-// goValue converts a Datum into the representation promised by
+// goValue converts a Datum of type t into the representation promised by
 // Server.Rows: int64, bool, string, []byte, time.Time, []string, [][]byte,
 // []int64, []bool, []time.Time or nil. Arrays containing NULL elements are
 // returned as []any.
-func goValue(d Datum) any {
+func goValue(d Datum, t Type) any {
 	a, ok := d.(array)
 	if !ok {
 		if b, ok := d.([]byte); ok {
@@ -743,44 +746,42 @@ func goValue(d Datum) any {
 		}
 		return d
 	}
+	et := elemOf[t]
 	for _, e := range a {
 		if e == nil {
 			out := make([]any, len(a))
 			for i, e := range a {
-				out[i] = goValue(e)
+				out[i] = goValue(e, et)
 			}
 			return out
 		}
 	}
-	if len(a) == 0 {
-		return []any{}
-	}
-	switch a[0].(type) {
-	case string:
+	switch et {
+	case TText:
 		out := make([]string, len(a))
 		for i, e := range a {
 			out[i] = e.(string)
 		}
 		return out
-	case []byte:
+	case TBytea:
 		out := make([][]byte, len(a))
 		for i, e := range a {
 			out[i] = append([]byte{}, e.([]byte)...)
 		}
 		return out
-	case int64:
+	case TInt2, TInt4, TInt8:
 		out := make([]int64, len(a))
 		for i, e := range a {
 			out[i] = e.(int64)
 		}
 		return out
-	case bool:
+	case TBool:
 		out := make([]bool, len(a))
 		for i, e := range a {
 			out[i] = e.(bool)
 		}
 		return out
-	case time.Time:
+	case TTimestamp:
 		out := make([]time.Time, len(a))
 		for i, e := range a {
 			out[i] = e.(time.Time)
@@ -789,7 +790,7 @@ func goValue(d Datum) any {
 	}
 	out := make([]any, len(a))
 	for i, e := range a {
-		out[i] = goValue(e)
+		out[i] = goValue(e, et)
 	}
 	return out
 }
